@@ -41,11 +41,9 @@ def Ty.nonEmpty : Ty → Bool
   | .iface _ alts => alts.nonEmpty
 def Fields.nonEmpty : Fields → Bool
   | .nil => false
-  | .cons .plain t rest => t.nonEmpty || rest.nonEmpty
-  | .cons .optional _ _ => true
-  | .cons .embedded (.struct _ fs) rest => fs.nonEmpty || rest.nonEmpty
-  | .cons .embedded (.ptr (.struct _ fs)) rest => fs.nonEmpty || rest.nonEmpty
-  | .cons .embedded _ rest => rest.nonEmpty
+  | .cons false t rest => t.nonEmpty || rest.nonEmpty
+  | .cons true _ _ => true
+  | .emb _ fs rest => fs.nonEmpty || rest.nonEmpty
 def Alts.nonEmpty : Alts → Bool
   | .nil => true
   | .cons _ t rest => t.nonEmpty && rest.nonEmpty
@@ -67,9 +65,10 @@ def Ty.isKey : Ty → Bool
   | _ => false
 def Fields.isKey : Fields → Bool
   | .nil => true
-  | .cons .plain t rest => t.isKey && rest.isKey
-  | .cons .embedded (.struct _ fs) rest => fs.isKey && rest.isKey
-  | .cons _ _ _ => false
+  | .cons false t rest => t.isKey && rest.isKey
+  | .cons true _ _ => false
+  | .emb false fs rest => fs.isKey && rest.isKey
+  | .emb true _ _ => false
 end
 
 /-- The type writes `code` with denotation `den` as its first bytes (what `decodeInterface` reads). -/
@@ -87,12 +86,6 @@ def Alts.codes : Alts → List Nat
 /-- `optional` is only accepted on pointer and interface fields (`parseStructFields`). -/
 def Ty.isOptKind : Ty → Bool
   | .ptr _ | .iface _ _ | .u256 => true
-  | _ => false
-
-/-- Embedded fields are structs or pointers to structs (`isUnderlyingStruct`). -/
-def Ty.isEmbKind : Ty → Bool
-  | .struct _ _ => true
-  | .ptr (.struct _ _) => true
   | _ => false
 
 mutual
@@ -125,9 +118,9 @@ def Ty.wf : Ty → Bool
   | .iface den alts => alts.wf den && nodupB alts.codes
 def Fields.wf : Fields → Bool
   | .nil => true
-  | .cons .plain t rest => t.wf && rest.wf
-  | .cons .optional t rest => t.isOptKind && t.nonEmpty && t.wf && rest.wf
-  | .cons .embedded t rest => t.isEmbKind && t.wf && rest.wf
+  | .cons false t rest => t.wf && rest.wf
+  | .cons true t rest => t.isOptKind && t.nonEmpty && t.wf && rest.wf
+  | .emb _ fs rest => fs.wf && rest.wf
 def Alts.wf (den : Den) : Alts → Bool
   | .nil => true
   | .cons c t rest => t.startsWith den c && t.wf && rest.wf den
@@ -141,6 +134,11 @@ def bytesOf : Res Bytes → Bytes
 def canonSeq (sort : Bool) (items : List (Bytes × Val)) : List Val :=
   ((if sort then isortBy (·.1) items else items).map (·.2))
 
+/-- One map entry: its encoded bytes and its canonical form. -/
+def canonKV (ek ev : Val → Bytes) (ck cv : Val → Val) : Val → Bytes × Val
+  | .kv a b => (ek a ++ ev b, .kv (ck a) (cv b))
+  | x => ([], x)
+
 mutual
 /-- The canonical form of a value: what `Decode` returns for the bytes `Encode` produced. -/
 def canon : Ty → Val → Opts → Val
@@ -150,19 +148,16 @@ def canon : Ty → Val → Opts → Val
   | .array _ _ r e, .l vs, o =>
     .l (canonSeq (r.autoSort && r.lex) (vs.map (fun v => (bytesOf (enc e true v o), canon e v o))))
   | .map _ _ k v, .l kvs, o =>
-    .l (canonSeq true (kvs.map (fun e => match e with
-      | .kv a b => (bytesOf (enc k true a o) ++ bytesOf (enc v true b o), .kv (canon k a o) (canon v b o))
-      | x => ([], x))))
+    .l (canonSeq true (kvs.map (canonKV (fun a => bytesOf (enc k true a o)) (fun b => bytesOf (enc v true b o))
+      (fun a => canon k a o) (fun b => canon v b o))))
   | .struct _ fs, .l vs, o => .l (canonFields fs vs o)
   | .ptr t, .some v, o => .some (canon t v o)
   | .iface _ alts, .alt c v, o => .alt c (canonAlts alts c v o)
   | _, v, _ => v
 def canonFields : Fields → List Val → Opts → List Val
-  | .cons .embedded (.struct _ fs) rest, .l vs :: ws, o => .l (canonFields fs vs o) :: canonFields rest ws o
-  | .cons .embedded (.ptr (.struct _ fs)) rest, .some (.l vs) :: ws, o =>
-    .some (.l (canonFields fs vs o)) :: canonFields rest ws o
-  | .cons .embedded _ rest, v :: ws, o => v :: canonFields rest ws o
   | .cons _ t rest, v :: ws, o => canon t v o :: canonFields rest ws o
+  | .emb false fs rest, .l vs :: ws, o => .l (canonFields fs vs o) :: canonFields rest ws o
+  | .emb true fs rest, .some (.l vs) :: ws, o => .some (.l (canonFields fs vs o)) :: canonFields rest ws o
   | _, vs, _ => vs
 def canonAlts : Alts → Nat → Val → Opts → Val
   | .nil, _, v, _ => v
